@@ -69,10 +69,12 @@ func TestC13(t *testing.T) {
 		}
 		fileCacheModes(r, tmp)
 		realFileCacheRestarts(t, r, tmp)
+		retainingCaches(r)
+		failedStartUps(r)
 		crashPart(t, r, tmp)
 	}
 	r.Require("payloads_checked", "restarts_from_payload", "fileclient_checks", "flush_after_lookup", "flush_after_poll", "flush_on_shutdown",
-		"fuzz_certainly_valid", "fuzz_certainly_invalid", "fuzz_grey", "cache_write_failures", "parked_write_cases", "crash_points", "io_errors_injected", "steps_with_stale_pinned_secrets", "restarts_from_real_cache_files", "failed_initial_cache_writes", "start_ups_with_unreadable_cache", "writes_after_a_killed_write", "quiet_polls_after_a_failed_cache_write")
+		"fuzz_certainly_valid", "fuzz_certainly_invalid", "fuzz_grey", "cache_write_failures", "parked_write_cases", "crash_points", "io_errors_injected", "steps_with_stale_pinned_secrets", "restarts_from_real_cache_files", "retaining_cache_checks", "failed_start_ups", "failed_initial_cache_writes", "start_ups_with_unreadable_cache", "writes_after_a_killed_write", "quiet_polls_after_a_failed_cache_write")
 	r.Rule("histories: initial fetch, lookups, polls with/without service changes (some with failing cache writes), shutdown; after every step the last payload must be a complete document of exactly the known names with their current version+bytes, a new store started from it with a dead service must serve the same, and NewFileClient must agree on non-empty secrets. Fuzz: documents mutated around the valid format (bit flips, truncations, token splices, nulls, wrong types, duplicate/empty keys, case variants, nesting, invalid UTF-8). Crash part: every system call of FileCache.Write as kill point and as error point. Distinct = (step kind, flush expected?), fuzz (mutation, class, sources used), crash (syscall, fault)")
 }
 
@@ -1039,4 +1041,114 @@ func realFileCacheRestarts(t *testing.T, r *evid.Run, tmp string) {
 			}
 		}
 	}
+}
+
+// keepCache keeps the very slice it is given (as setec.MemCache does) and can refuse a write.
+type keepCache struct {
+	data   []byte
+	refuse bool
+}
+
+func (c *keepCache) Write(b []byte) error {
+	if c.refuse {
+		return errors.New("injected: cache write refused")
+	}
+	c.data = b
+	return nil
+}
+func (c *keepCache) Read() ([]byte, error) { return c.data, nil }
+
+// retainingCaches: a cache implementation may keep the slice it was handed (the in-memory cache of the package
+// does). What the cache holds changes when a write succeeds, not otherwise: a refused write leaves the old
+// document, byte for byte, and so does everything the store does afterwards until a write succeeds.
+func retainingCaches(r *evid.Run) {
+	rng := r.Rand(141414)
+	for c := 0; c < 60; c++ {
+		svc := fakesvc.New()
+		long := fmt.Sprintf("a-rather-long-first-value-%x-%x", rng.Uint64(), rng.Uint64())
+		svc.Set("s", 1, []byte(long))
+		svc.Set("t", 1, []byte("t-value"))
+		cache := &keepCache{}
+		st, err := setec.NewStore(context.Background(), setec.StoreConfig{Client: svc, Secrets: []string{"s", "t"}, Cache: cache, AllowLookup: true, PollInterval: -1, Logf: func(string, ...any) {}})
+		if err != nil {
+			r.Violation("newstore-fails", -1, err.Error(), nil)
+			return
+		}
+		for step := 0; step < 6; step++ {
+			held := string(cache.data) // what the cache holds now, copied
+			cache.refuse = rng.IntN(2) == 0
+			switch rng.IntN(3) {
+			case 0:
+				svc.Set("s", uint32(step+2), []byte(fmt.Sprintf("v%d", step))) // shorter than before: fits the old buffer
+			case 1:
+				svc.Set("t", uint32(step+2), []byte(fmt.Sprintf("t-%d-%x", step, rng.Uint64())))
+			case 2:
+				svc.Set(fmt.Sprintf("looked/%d", step), 1, []byte("x"))
+				st.LookupSecret(context.Background(), fmt.Sprintf("looked/%d", step))
+			}
+			st.Refresh(context.Background())
+			r.Eval(1)
+			r.Count("retaining_cache_checks", 1)
+			if cache.refuse && string(cache.data) != held {
+				r.Violation("refused-write-changed-cache", -1, fmt.Sprintf("a cache that keeps the slice it is given refused a write; the document it holds has changed all the same: was %q, is %q", held, cache.data), nil)
+				st.Close()
+				return
+			}
+			if _, ok := wellFormed(cache.data); !ok && len(cache.data) > 0 {
+				r.Violation("payload-not-a-complete-document", -1, fmt.Sprintf("the cache holds %q", cache.data), nil)
+				st.Close()
+				return
+			}
+			cache.refuse = false
+		}
+		st.Close()
+	}
+	r.Distinct("slice-retaining cache")
+}
+
+// failedStartUps: a start that never completes (one declared secret stays unavailable until the caller gives
+// up) leaves the cache usable: whatever it wrote, if anything, is a complete document, and the next start that
+// needs only what the cache already held succeeds with the service unreachable.
+func failedStartUps(r *evid.Run) {
+	for c := 0; c < 12; c++ {
+		svc := fakesvc.New()
+		svc.Set("alpha", 1, []byte("alpha-1"))
+		svc.Set("beta", 1, []byte("beta-1"))
+		svc.Behave = func(q *fakesvc.Req) fakesvc.Behaviour {
+			if q.Name == "gamma" {
+				return fakesvc.Behaviour{Fail: fakesvc.ErrInjected, Plain: true}
+			}
+			return fakesvc.Behaviour{}
+		}
+		good := []byte(`{"alpha":{"secret":{"Value":"YWxwaGEtMQ==","Version":1},"lastAccess":"0"}}`)
+		cache := &fakesvc.MonCache{Initial: good}
+		ctx, cancel := context.WithTimeout(context.Background(), time.Duration(20+10*c)*time.Millisecond)
+		st, err := setec.NewStore(ctx, setec.StoreConfig{Client: svc, Secrets: []string{"alpha", "beta", "gamma"}, Cache: cache, PollInterval: -1, Logf: func(string, ...any) {}})
+		cancel()
+		r.Eval(1)
+		r.Count("failed_start_ups", 1)
+		if err == nil {
+			st.Close()
+			r.Violation("newstore-accepted-missing-secret", -1, "a start with an unavailable declared secret succeeded", nil)
+			return
+		}
+		for i, w := range cache.Writes {
+			if _, ok := wellFormed(w); !ok {
+				r.Violation("payload-not-a-complete-document", -1, fmt.Sprintf("a start that never completed wrote cache payload #%d: %s", i, w), nil)
+				return
+			}
+		}
+		dead := fakesvc.New()
+		dead.Behave = func(*fakesvc.Req) fakesvc.Behaviour { return fakesvc.Behaviour{Fail: fakesvc.ErrInjected, Plain: true} }
+		doc, _ := cache.Read()
+		ctx2, cancel2 := context.WithTimeout(context.Background(), 2*time.Second)
+		st2, err := setec.NewStore(ctx2, setec.StoreConfig{Client: dead, Secrets: []string{"alpha"}, Cache: &fakesvc.MonCache{Initial: doc}, PollInterval: -1, Logf: func(string, ...any) {}})
+		cancel2()
+		if err != nil || string(st2.Secret("alpha").Get()) != "alpha-1" {
+			r.Violation("restart-from-cache-fails", -1, fmt.Sprintf("the cache held alpha; a start needing alpha, beta and gamma never completed; now a start needing only alpha, service unreachable, fails: %v (cache: %s)", err, doc), nil)
+			return
+		}
+		st2.Close()
+	}
+	r.Distinct("failed start-ups")
 }
